@@ -204,10 +204,10 @@ fn seam_case(run: &Run, blocks: &[Block], code: &str) {
             }
         }
     }
-    // input-determined class of the recorded finding (DESIGN §6): torsion in at least two different
-    // q-degrees of the same homological degree, which the total Smith form may merge
-    let torsion_blocks = blocks.iter().filter(|b| b.m.invariant_factors_by_elimination().iter().any(|x| !x.is_unit())).count();
-    let key_a = if torsion_blocks >= 2 { format!("khseam:routeA:torsion-in-two-q-degrees:{code}") } else { format!("{key}:routeA") };
+    // route A is known to be wrong on a fixed, deterministic set of these inputs (DESIGN §10.2); the
+    // exact keys are listed in /verif/known/C03_seam_routeA.txt, so that any OTHER input on which
+    // route A fails is still reported
+    let key_a = format!("{key}:routeA");
     let detail = |a: String| json!({"blocks": blocks.iter().map(|b| json!({"q": if b.qplus {1} else {-1}, "d": b.m.show()})).collect::<Vec<_>>(), "expected": show_table(&want), "library": a});
     run.add("evaluations", 2);
     let b2 = build.clone();
